@@ -10,13 +10,13 @@ import (
 	"github.com/0xReLogic/Helios/verifharness/lab"
 )
 
-const oracleText = "oracle per case (the sequence is played twice against one helios process): (i) every client call of a fault step ends - HTTP response of any status or closed/reset connection - within 2*(read+write+backend_dial+backend_read)+2 s = 12 s, no end after 20 s = wedged; " +
+const oracleText = "oracle per case (the sequence is played twice against one helios process): (i) every client call of a fault step ends - HTTP response of any status or closed/reset connection - within 2*(read+write+backend_dial+backend_read)+2 s of the case's own configuration (12 s for backend_read 1, 14 s for 2, 16 s for 3; a 101 answer counts as the end of an upgrade request, the client then closes the tunnel), no end after 20 s = wedged; " +
 	"(ii) afterwards, polling from fresh client addresses, within 8 s (nominal 4 s, measured time is a class label) a request is answered 200 by a backend and the next 5 requests succeed too (a failure in between restarts the count: the bookkeeping of a faulted request whose client has already gone may still open the breaker or eject a backend inside the window), and /v1/backends stops reporting an ejected backend within the same 8 s; " +
 	"(iii) the process is alive, its log has no panic / fatal error / goroutine trace, /v1/backends shows every active_connections at 0 within 3 s; " +
 	"(iv) the open-fd count is back at <= baseline+20 and the second run does not end more than 2 fds above the first"
 
 // workers is the number of labs (helios process + 2 raw backends) a shard runs in parallel.
-func workers() int { return 12 } // per sub-check; the shard-wide bound is labSlots (run.go)
+func workers() int { return 12 } // per sub-check (the request-kind table: 3x); the shard-wide bound is labSlots (run.go)
 
 type replayDoc struct {
 	Kind      string `json:"kind,omitempty"`
@@ -33,7 +33,9 @@ type replayDoc struct {
 }
 
 // runAll executes the cases in parallel (worker pool) and returns the results in case order.
-func runAll(t *testing.T, cases []Case) []Result {
+func runAll(t *testing.T, cases []Case) []Result { return runWide(t, cases, workers()) }
+
+func runWide(t *testing.T, cases []Case, width int) []Result {
 	res := make([]Result, len(cases))
 	ch := make(chan int, len(cases))
 	for i := range cases {
@@ -41,7 +43,7 @@ func runAll(t *testing.T, cases []Case) []Result {
 	}
 	close(ch)
 	var wg sync.WaitGroup
-	for g := 0; g < workers() && g < len(cases); g++ {
+	for g := 0; g < width && g < len(cases); g++ {
 		wg.Add(1)
 		go func() {
 			defer wg.Done()
@@ -103,6 +105,20 @@ func minimise(t *testing.T, c Case, v string) (Case, Result, bool) {
 				c = cand
 			}
 		}
+		if kindOf(c.Steps[i].Kind) != "get" {
+			cand := Case{Cfg: c.Cfg, Steps: append([]Step(nil), c.Steps...)}
+			cand.Steps[i].Kind = ""
+			if try(cand) {
+				c = cand
+			}
+		}
+	}
+	if c.Cfg.Handler != 0 || c.Cfg.BackendRead != 0 { // back to the former fixed timeouts (handler 2, backend_read 1)
+		cand := Case{Cfg: c.Cfg, Steps: c.Steps}
+		cand.Cfg.Handler, cand.Cfg.BackendRead = 0, 0
+		if try(cand) {
+			c = cand
+		}
 	}
 	return c, last, changed
 }
@@ -122,9 +138,14 @@ func judge(t *testing.T, name string, sub *lab.SubCheck, cases []Case, res []Res
 				labels = append(labels, k)
 			}
 		}
+		labels = append(labels, "timeouts:"+c.Cfg.relation())
 		conc := false
 		for _, s := range c.Steps {
-			labels = append(labels, "fault="+s.Fault)
+			labels = append(labels, "fault="+s.Fault, "kind="+kindOf(s.Kind))
+			if u := shapeOf(s.Kind, 0).upgrade != ""; u && (s.Fault == "hang-headers" || s.Fault == "slow-body") {
+				// the faults that only a timeout can end, on requests the handler timeout is not applied to
+				labels = append(labels, "timeout-ended-fault-on-upgrade-request")
+			}
 			conc = conc || s.Concurrent > 0
 		}
 		if conc {
@@ -162,13 +183,19 @@ func judge(t *testing.T, name string, sub *lab.SubCheck, cases []Case, res []Res
 				failed = i
 			}
 		}
-		sub.Case(c, c.Nontrivial(), dedup(labels)...)
-		if lab.Open(KeyBodyStall) {
-			for _, s := range c.Steps {
-				if s.Fault == "slow-body" {
-					sub.Excluded(KeyBodyStall) // the stalling variant of slow-body was replaced by the 3 s trickle
-					break
-				}
+		nontrivial := c.Nontrivial()
+		if name == "request-kinds-enumerated" && len(c.Steps) == 1 {
+			nontrivial = kindOf(c.Steps[0].Kind) != "get" // the rule of that sub-check
+		}
+		sub.Case(c, nontrivial, dedup(labels)...)
+		for _, s := range c.Steps {
+			if s.Fault == "slow-body" && lab.Open(KeyBodyStall) {
+				sub.Excluded(KeyBodyStall) // the stalling variant of slow-body was replaced by the 3 s trickle
+				break
+			}
+			if s.Fault == "slow-body" && shapeOf(s.Kind, 0).upgrade != "" && lab.Open(KeyUpgradeStall) {
+				sub.Excluded(KeyUpgradeStall) // ... for the requests of this step that carry an Upgrade field
+				break
 			}
 		}
 	}
@@ -236,6 +263,7 @@ func enumerated() []Case {
 					if breaker {
 						c.Cfg.Breaker = 2 + int((h>>5)%3)
 					}
+					c.Cfg.Handler, c.Cfg.BackendRead = 1+int((h>>12)%3), 1+int((h>>16)%3)
 					s := Step{Fault: f}
 					if conc {
 						s.Concurrent = 2 + int((h>>8)%7)
@@ -254,8 +282,8 @@ func TestC03SingleFaults(t *testing.T) {
 	t.Parallel()
 	const name = "single-faults-enumerated"
 	sub := lab.Sub(name, "complete enumeration: every single fault of {refuse, hang-headers, reset-after-headers, short-body, garbage, 5xx, slow-body (20 ms trickle then full stall mid-body), client-abort-upload, client-abort-download} "+
-		"x circuit breaker off/on x burst sequential (4 requests) / concurrent (2-8 requests) [thorough: x each of the 5 strategies], against the real helios binary with all timeouts at 1-2 s and a GOOD plus a FAULTY raw TCP backend; "+
-		"the other configuration dimensions (strategy in quick, limiter, passive/active checks, plugin chain, backend order, failure_threshold 2-4, burst width) are a pure function of seed and table index; "+oracleText+
+		"x circuit breaker off/on x burst sequential (4 requests) / concurrent (2-8 requests) [thorough: x each of the 5 strategies], all requests plain GETs (the other request kinds: sub-check request-kinds-enumerated), against the real helios binary with all timeouts at 1-3 s and a GOOD plus a FAULTY raw TCP backend; "+
+		"the other configuration dimensions (strategy in quick, limiter, passive/active checks, plugin chain, backend order, failure_threshold 2-4, burst width, handler and backend_read timeout 1-3 s each) are a pure function of seed and table index; "+oracleText+
 		"; non-trivial = abort-type fault with the breaker on (the rule's other arm, >= 2 distinct fault kinds, cannot occur in single-fault cases)")
 	sub.NontrivialFloor(0.10)
 	sub.Floor("fault-delivered", 0.85)
@@ -286,8 +314,8 @@ func TestC03Sequences(t *testing.T) {
 	t.Parallel()
 	const name = "fault-sequences-sampled"
 	k := lab.Scale(3, 5)
-	sub := lab.Sub(name, fmt.Sprintf("sampled: rapid generator (seeded per case from VERIF_SEED, shard and case index; cases of a shard are drawn first and then executed by %d parallel labs): strategy x breaker off/failure_threshold 2-4 x limiter x passive x active x plugin chain x backend order, "+
-		"fault sequence of length 1..%d (weighted towards long) over the 9-fault alphabet, each step a sequential burst of 4 or a concurrent burst of 2-8 requests; ", workers(), k)+oracleText+
+	sub := lab.Sub(name, fmt.Sprintf("sampled: rapid generator (seeded per case from VERIF_SEED, shard and case index; cases of a shard are drawn first and then executed by %d parallel labs): strategy x breaker off/failure_threshold 2-4 x limiter x passive x active x plugin chain x backend order x handler timeout 1-3 s x backend_read timeout 1-3 s, "+
+		"fault sequence of length 1..%d (weighted towards long) over the 9-fault alphabet, each step a sequential burst of 4 or a concurrent burst of 2-8 requests of one request kind drawn from {get, post-cl, post-chunked, head, upgrade-websocket, upgrade-h2c, expect-continue}; ", workers(), k)+oracleText+
 		"; non-trivial = >= 2 distinct fault kinds, or >= 1 client-abort fault with the breaker on")
 	sub.NontrivialFloor(0.50)
 	sub.Floor("fault-delivered", 0.80)
@@ -315,6 +343,80 @@ func TestC03Sequences(t *testing.T) {
 	judge(t, name, sub, cases, res, replay)
 }
 
+// kindCases is the complete table request kind x fault x timeout relation (quick: the pair of values
+// realising the relation is a pure function of seed and table index; thorough: all nine pairs).
+func kindCases() []Case {
+	var out []Case
+	i := 0
+	for _, kind := range Kinds {
+		for _, f := range Faults {
+			for ri, rel := range Relations {
+				pairs := TimeoutPairs[rel]
+				if !lab.Thorough() {
+					pairs = pairs[(mix(lab.Seed()*1000211+uint64(i))>>40)%3:][:1]
+				}
+				for _, hb := range pairs {
+					h := mix(lab.Seed()*1000117 + uint64(i))
+					c := Case{Cfg: Cfg{Strategy: Strategies[(uint64(i)+lab.Seed())%5], FaultyFirst: h&1 == 1, Limiter: h&2 != 0, Passive: h&4 != 0, Active: h&8 != 0, Plugins: h&16 != 0, Handler: hb[0], BackendRead: hb[1]}}
+					if h&32 != 0 {
+						c.Cfg.Breaker = 2 + int((h>>6)%3)
+					}
+					// a concurrent burst of 4-8: whatever the rotation, requests 0,1 / 2,3 / ... of the burst differ in the
+					// variants the kind and the fault alternate between (101 or 200, stall or trickle, wait for 100 or not)
+					s := Step{Fault: f, Kind: kind, Concurrent: 4 + int((h>>8)%5)}
+					if (uint64(ri)+h>>16)%4 == 0 {
+						s.Concurrent = 0
+						if c.Cfg.Strategy == "least_connections" {
+							c.Cfg.FaultyFirst = true // an idle least_connections pool always picks the backend listed first
+						}
+					}
+					c.Steps = []Step{s}
+					out = append(out, c)
+					i++
+				}
+			}
+		}
+	}
+	return out
+}
+
+func TestC03RequestKinds(t *testing.T) {
+	t.Parallel()
+	const name = "request-kinds-enumerated"
+	sub := lab.Sub(name, "complete enumeration: request kind {plain GET, POST with a Content-Length body, POST with a chunked body, HEAD, WebSocket handshake (Connection: Upgrade, Upgrade: websocket, Sec-WebSocket-Key/-Version), Upgrade: h2c, POST with Expect: 100-continue and a body} "+
+		"x each of the 9 faults x timeout relation {handler < backend_read, ==, >} (quick: the pair of values in 1-3 s realising the relation is a function of seed and table index; thorough: all nine pairs); "+
+		"one fault step per case, 3 in 4 a concurrent burst of 4-8 requests, else 4 sequential ones; strategy rotating by table index; breaker, limiter, passive/active checks, plugin chain, backend order: pure function of seed and table index. "+
+		"A well-behaved backend answers 200, sends 100 Continue to Expect: 100-continue, and answers requests 0,1,4,5 of an upgrade burst with 101 Switching Protocols (the client then sends a Close frame / closes the tunnel) and the others with 200; "+
+		"under client-abort-upload a bodiless kind becomes a POST that keeps the kind's other fields; which status a faulted request gets is not part of the oracle; "+oracleText+
+		"; non-trivial = the request kind is not the plain GET")
+	sub.NontrivialFloor(0.80)
+	sub.Floor("fault-delivered", 0.85)
+	sub.Floor("ends:101", 0.12)                               // upgrade requests were really switched (2 of 7 kinds, minus the client-abort faults)
+	sub.Floor("timeout-ended-fault-on-upgrade-request", 0.05) // 2 kinds x 2 faults of 7 x 9
+	sub.Floor("interim:100-continue", 0.07)                   // Expect: 100-continue requests really got their interim response (1 of 7 kinds)
+	assumptions()
+	var rc Case
+	replay := lab.ReplayCase(name, &rc)
+	if lab.Replaying() && !replay {
+		t.Skip("replay of another sub-check")
+	}
+	var cases []Case
+	if replay {
+		cases = []Case{rc}
+	} else {
+		for i, c := range kindCases() {
+			if i%lab.Shards() == lab.Shard() {
+				cases = append(cases, c)
+			}
+		}
+	}
+	res := runWide(t, cases, 3*workers())
+	if !replay {
+		sub.Exhaustive()
+	}
+	judge(t, name, sub, cases, res, replay)
+}
+
 // trialCases is the complete table opening fault x trial fault x max_requests written/unset.
 func trialCases() []Case {
 	var out []Case
@@ -323,8 +425,9 @@ func trialCases() []Case {
 		for _, f := range Faults {
 			for _, unset := range []bool{false, true} {
 				h := mix(lab.Seed()*1000033 + uint64(i))
-				out = append(out, Case{Kind: "breaker-trial", Opening: opening, Steps: []Step{{Fault: f}},
-					Cfg: Cfg{Strategy: Strategies[(uint64(i)+lab.Seed())%5], FaultyFirst: h&1 == 1, Limiter: h&2 != 0, Plugins: h&4 != 0, Breaker: 2, BreakerMaxRequestsUnset: unset}})
+				out = append(out, Case{Kind: "breaker-trial", Opening: opening, Steps: []Step{{Fault: f, Kind: Kinds[(uint64(i)/2+lab.Seed())%uint64(len(Kinds))]}},
+					Cfg: Cfg{Strategy: Strategies[(uint64(i)+lab.Seed())%5], FaultyFirst: h&1 == 1, Limiter: h&2 != 0, Plugins: h&4 != 0, Breaker: 2, BreakerMaxRequestsUnset: unset,
+						Handler: 1 + int((h>>12)%3), BackendRead: 1 + int((h>>16)%3)}})
 				i++
 			}
 		}
@@ -336,7 +439,7 @@ func TestC03BreakerTrial(t *testing.T) {
 	t.Parallel()
 	const name = "breaker-trial-faults-enumerated"
 	sub := lab.Sub(name, "complete enumeration: opening fault {5xx, refuse, reset-after-headers} x trial fault (each of the 9) x circuit_breaker.max_requests {1, left out of the YAML}; breaker failure_threshold 2, success_threshold 1, timeout 1 s, passive and active checks off "+
-		"(strategy, limiter, plugin chain, backend order: pure function of seed and table index); the opening fault is played by BOTH backends until the proxy itself answers 503 'circuit breaker is open' (class breaker-opened), "+
+		"(strategy, limiter, plugin chain, backend order, handler/backend_read timeout 1-3 s, request kind of the trial request - rotating over the 7 kinds: pure function of seed and table index); the opening fault is played by BOTH backends until the proxy itself answers 503 'circuit breaker is open' (class breaker-opened), "+
 		"then breaker timeout + 0.2 s after the last failure ONE request carrying the trial fault on both backends is sent: the request the half-open breaker admits (class fault-on-trial); everything twice per helios process; "+oracleText+
 		" - in particular (ii): after the faulted trial the proxy must serve 200 again within 8 s instead of answering 429/503 forever; every case is non-trivial")
 	sub.NontrivialFloor(1.0)
@@ -368,7 +471,7 @@ func TestC03BreakerTrial(t *testing.T) {
 func TestC03WindowExpiry(t *testing.T) {
 	t.Parallel()
 	const name = "concurrent-burst-at-window-expiry"
-	sub := lab.Sub(name, "sampled: passive checks on (unhealthy_threshold 1-2, unhealthy_timeout 1 s), breaker and limiter off, strategy rotating over all five by case index; a seeded rapid generator draws active checks, plugin chain, backend order, "+
+	sub := lab.Sub(name, "sampled: passive checks on (unhealthy_threshold 1-2, unhealthy_timeout 1 s), breaker and limiter off, strategy rotating over all five by case index; a seeded rapid generator draws active checks, plugin chain, backend order, handler and backend_read timeout (1-3 s each), "+
 		"8-64 keep-alive clients, 5-8 s, the client mode (all in synchronised volleys / half free-running back to back / all free-running) and 8-32 backend entries that all point at the FAULTY server (each entry has its own health state and window) next to one GOOD entry; "+
 		"FAULTY answers 500 to everything (entry ejected, window expires after 1 s, re-admitted by the next request, fails again, ...), GOOD answers 200; in a volley every client has its connection open, waits at a barrier and all write their request at the same instant, "+
 		"so the first requests after an expiry reach the re-admission path together (expiries counted from the helios log: window-expiries-total, class expiries>=20 per case); clause (i) for every single request of the burst, then (ii)-(iv) as everywhere; played twice per helios process; "+oracleText+"; every case is non-trivial")
@@ -401,9 +504,10 @@ func TestC03WindowExpiry(t *testing.T) {
 func assumptions() {
 	lab.Assume("L3 binary lab: the real helios executable built from the current tree, loopback TCP only; the FAULTY/GOOD backends are the harness's raw scripted TCP servers, 'refuse' = accept-then-reset of every new connection plus reset of requests arriving on pooled connections (a closed port is not used, it could be re-bound by another process)")
 	lab.Assume("Helios picks the backend: every step is a burst carrying the fault script on FAULTY and a 200 script on GOOD; under the ip_hash strategies half of each burst uses client addresses observed (warm-up) to map to FAULTY; whether the fault reached its target is measured (class fault-delivered, floor)")
-	lab.Assume("wall-clock limits are the oracle here because the statement is about termination: 12 s per faulted call (normal: <= 2.1 s), 20 s no-progress = wedged, 8 s recovery watchdog (normal: <= 1.1 s); /v1/backends is trusted for active_connections and the healthy flag; fd counts are read from /proc/<pid>/fd with backend_idle 1 s so that pooled connections can close")
+	lab.Assume("wall-clock limits are the oracle here because the statement is about termination: 12-16 s per faulted call, derived from the configured timeouts of the case (normal: <= max(handler, backend_read, write)+0.2 s <= 3.2 s), 20 s no-progress = wedged, 8 s recovery watchdog (normal: <= 1.1 s); /v1/backends is trusted for active_connections and the healthy flag; fd counts are read from /proc/<pid>/fd with backend_idle 1 s so that pooled connections can close")
 	lab.Assume("environment canary: a violation reported while a 100 ms harness ticker showed a gap > 1 s or GET /v1/health on the admin port took > 1 s (paused VM, frozen process, CPU starvation) is not a verdict; the case is re-run up to twice (class rerun-after-environment-stall, details in notes) and is inconclusive if all three attempts were disturbed")
 	lab.Assume("concurrent schedules are sampled by real parallelism, not enumerated; faults below TCP and TLS faults are not generated")
+	lab.Assume("request kinds: the raw client sends syntactically valid HTTP/1.1 requests only (fixed Sec-WebSocket-Key, 2000-byte bodies); the well-behaved backend answers upgrade requests with 101 or 200, and Expect: 100-continue with 100 Continue before it reads the body (a backend that hangs, resets or sends garbage sends no interim response); after a 101 the client closes the tunnel, nothing is played inside it")
 }
 
 // ---------------------------------------------------------------------------------------------
@@ -415,11 +519,24 @@ func assumptions() {
 const bodyStallText = "a backend that sends its response head and part of the body and then stalls holds the proxied request forever: the client keeps an open connection with a half-delivered 200 and never gets an end " +
 	"(http.Transport only has ResponseHeaderTimeout = backend_read; server.timeouts.handler, documented as the end-to-end request timeout, is parsed and validated but never applied); slot, goroutine, sockets and active_connections stay occupied"
 
-// reproBodyStall: round_robin, every feature off, FAULTY listed first; requests whose FAULTY script
-// is "200, Content-Length 76800, 9 x 512 bytes, then nothing". Returns "" when every such request
-// ended within the bound of clause (i).
-func reproBodyStall(t testing.TB, observe time.Duration) (string, Result) {
-	c := Case{Cfg: Cfg{Strategy: "round_robin", FaultyFirst: true}, Steps: []Step{{Fault: "slow-body"}}}
+const upgradeStallText = "a request that merely carries an Upgrade field (WebSocket handshake, 'Upgrade: h2c' as sent by curl --http2) is exempt from server.timeouts.handler whether or not the backend switches protocols: " +
+	"when the backend answers it with an ordinary response head, sends part of the body and then stalls, nothing ends the request (the transport only has ResponseHeaderTimeout, the server write timeout only bounds writes and none happens): " +
+	"the client keeps a half-delivered 200 forever; handler goroutine, both sockets, the active_connections slot and a MaxConnsPerHost slot stay occupied"
+
+// repros are the fixed reproductions of the findings of this property (regression cases).
+var repros = []struct{ key, kind, text string }{
+	{KeyBodyStall, "get", bodyStallText},
+	{KeyUpgradeStall, "upgrade-h2c", upgradeStallText},
+}
+
+// reproBodyStall: round_robin, every feature off, FAULTY listed first, the former fixed timeouts
+// (handler 2, backend_read 1); requests of the given kind whose FAULTY script is "200, Content-Length
+// 76800, 9 x 512 bytes, then nothing". Returns "" when every such request ended within the bound of
+// clause (i).
+func reproBodyStall(t testing.TB, kind string) (string, Result) {
+	c := Case{Cfg: Cfg{Strategy: "round_robin", FaultyFirst: true}, Steps: []Step{{Fault: "slow-body", Kind: kind}}}
+	endBound := c.Cfg.endBound()
+	observe := endBound + time.Second
 	w, why := startWorld(t, c)
 	if w == nil {
 		return "", Result{Harness: why}
@@ -433,7 +550,7 @@ func reproBodyStall(t testing.TB, observe time.Duration) (string, Result) {
 		id := w.nextID()
 		w.good.Expect(id, okScript("good"))
 		ex := w.faulty.Expect(id, faultScript("slow-body", 0, true))
-		o := getWithin(w.proxy, id, "10.3.0.1", false, observe)
+		o := exchange(w.proxy, id, "10.3.0.1", shapeOf(kind, 2), false, observe, complete)
 		hit := lab.SeenOf(ex) != nil
 		lab.CloseBarrier(ex)
 		w.good.Forget(id)
@@ -441,7 +558,7 @@ func reproBodyStall(t testing.TB, observe time.Duration) (string, Result) {
 		if hit {
 			res := Result{YAML: w.yaml, Log: w.h.Log(), Stalls: w.canary.seen()}
 			if !o.Ended || o.Elapsed > endBound {
-				return fmt.Sprintf("GET answered by the stalling backend: %v (bound %v)", o, endBound), res
+				return fmt.Sprintf("%s request answered by the stalling backend: %v (bound %v)", kindOf(kind), o, endBound), res
 			}
 			return "", res
 		}
@@ -452,40 +569,47 @@ func reproBodyStall(t testing.TB, observe time.Duration) (string, Result) {
 func TestC03KnownFindings(t *testing.T) {
 	t.Parallel()
 	const name = "known-finding-reproductions"
-	sub := lab.Sub(name, "one fixed reproduction (regression case): round_robin, every optional feature off, one GET whose backend sends the response head and 9 x 512 of 76800 body bytes and then stalls; the call must end within the 12 s bound of clause (i); "+
+	sub := lab.Sub(name, "two fixed reproductions (regression cases): round_robin, every optional feature off, handler 2 s, backend_read 1 s, one request whose backend sends the response head and 9 x 512 of 76800 body bytes and then stalls - "+
+		"(1) a plain GET, (2) a GET carrying Connection: Upgrade + Upgrade: h2c (answered 200, not 101); the call must end within the 12 s bound of clause (i); "+
 		"a failing reproduction of an OPEN entry of known_findings.json prints KNOWN-FINDING, any other failure is a violation")
 	var rc struct {
 		Key string `json:"key"`
 	}
 	replay := lab.ReplayCase(name, &rc)
-	if (lab.Replaying() && !replay) || (!replay && lab.Shard() != lab.Shards()-1) {
-		t.Skip("runs in the last shard only")
+	if lab.Replaying() && !replay {
+		t.Skip("replay of another sub-check")
 	}
-	msg, r := reproBodyStall(t, endBound+time.Second)
-	for attempt := 1; msg != "" && len(r.Stalls) > 0 && r.Harness == ""; attempt++ { // disturbed by an environment stall: no verdict
-		if attempt == 3 {
-			r.Harness = fmt.Sprintf("the environment stalled during each of 3 attempts: %v", r.Stalls)
-			break
+	for i, rp := range repros {
+		// reproduction i runs in the i-th shard from the end only
+		if (replay && rc.Key != rp.key) || (!replay && lab.Shard() != (lab.Shards()-1-i+len(repros)*lab.Shards())%lab.Shards()) {
+			continue
 		}
-		msg, r = reproBodyStall(t, endBound+time.Second)
-	}
-	if r.Harness != "" {
-		lab.Problem("%s: %s", name, r.Harness)
-		return
-	}
-	c := map[string]string{"key": KeyBodyStall}
-	if msg == "" {
-		sub.Case(c, true, "key="+KeyBodyStall, "passes")
-		if lab.Open(KeyBodyStall) {
-			sub.Note("finding " + KeyBodyStall + " is listed as open but its reproduction passes now")
+		msg, r := reproBodyStall(t, rp.kind)
+		for attempt := 1; msg != "" && len(r.Stalls) > 0 && r.Harness == ""; attempt++ { // disturbed by an environment stall: no verdict
+			if attempt == 3 {
+				r.Harness = fmt.Sprintf("the environment stalled during each of 3 attempts: %v", r.Stalls)
+				break
+			}
+			msg, r = reproBodyStall(t, rp.kind)
 		}
-		return
+		if r.Harness != "" {
+			lab.Problem("%s (%s): %s", name, rp.key, r.Harness)
+			continue
+		}
+		c := map[string]string{"key": rp.key}
+		if msg == "" {
+			sub.Case(c, true, "key="+rp.key, "passes")
+			if lab.Open(rp.key) {
+				sub.Note("finding " + rp.key + " is listed as open but its reproduction passes now")
+			}
+			continue
+		}
+		sub.Case(c, true, "key="+rp.key, "still-fails")
+		if lab.Open(rp.key) {
+			lab.KnownFinding(rp.key, rp.text)
+			t.Logf("open finding %s still reproduces: %s", rp.key, msg)
+			continue
+		}
+		lab.Violation(t, name, map[string]string{"key": rp.key, "helios_yaml": r.YAML, "helios_log": tail(r.Log, 8000)}, "%s: %s", rp.text, msg)
 	}
-	sub.Case(c, true, "key="+KeyBodyStall, "still-fails")
-	if lab.Open(KeyBodyStall) {
-		lab.KnownFinding(KeyBodyStall, bodyStallText)
-		t.Logf("open finding %s still reproduces: %s", KeyBodyStall, msg)
-		return
-	}
-	lab.Violation(t, name, map[string]string{"key": KeyBodyStall, "helios_yaml": r.YAML, "helios_log": tail(r.Log, 8000)}, "%s: %s", bodyStallText, msg)
 }
